@@ -156,9 +156,8 @@ def vbuild(guard=True, extra_cflags=(), tag=""):
     if os.path.exists(os.path.join(d, "OK")):
         os.utime(os.path.join(d, "OK"))
         return info
-    # keep the cache small: remove all but the 3 most recent entries
-    # keep the cache small: entries beyond the 8 most recently used are removed, but never one that
-    # was used in the last 45 minutes (several checks may run concurrently against different trees)
+    # keep the cache small (an entry is ~35 MB): entries beyond the 12 most recently used are removed, but never one that
+    # was used in the last 3 hours (a thorough tier may run that long while other checks build other trees)
     def used(e):
         ok = os.path.join(CACHE_ROOT, e, "OK")
         try:
@@ -166,8 +165,8 @@ def vbuild(guard=True, extra_cflags=(), tag=""):
         except OSError:
             return os.path.getmtime(os.path.join(CACHE_ROOT, e))
     ents = sorted((e for e in os.listdir(CACHE_ROOT)), key=used)
-    for e in ents[:-8]:
-        if time.time() - used(e) > 2700:
+    for e in ents[:-12]:
+        if time.time() - used(e) > 10800:
             shutil.rmtree(os.path.join(CACHE_ROOT, e), ignore_errors=True)
     tmp = d + ".tmp%d" % os.getpid()
     shutil.rmtree(tmp, ignore_errors=True)
